@@ -141,10 +141,13 @@ def skipWords : Nat → List Nat → Option (List Nat)
     | .ok _ r => skipWords k r
     | _ => none
 
-/-- the record loop of `read_functions` -/
-def parseRecs (le : Bool) (version : Nat) : Nat → Bool → List Nat → List NRec
-  | 0, _, _ => []
-  | fuel + 1, haveFn, bs =>
+/-- the record loop of `read_functions`; `blen` = length of the whole buffer (`reader.get_len()`),
+`total` = `total_blocks`, the number of blocks appended so far by BLOCKS records of all functions:
+a file cannot announce more blocks in total than it has bytes ("Unexpected total number of
+blocks", checked right after each BLOCKS record) -/
+def parseRecs (le : Bool) (version : Nat) (blen : Nat) : Nat → Nat → Bool → List Nat → List NRec
+  | 0, _, _, _ => []
+  | fuel + 1, total, haveFn, bs =>
     match readU32 le bs with
     | .ok tag r1 =>
       if tag = 0 then []
@@ -153,42 +156,45 @@ def parseRecs (le : Bool) (version : Nat) : Nat → Bool → List Nat → List N
         | .ok len r2 =>
           if tag = TAG_FUNCTION then
             match parseFunc le version r2 with
-            | .ok rec r3 => rec :: parseRecs le version fuel true r3
+            | .ok rec r3 => rec :: parseRecs le version blen fuel total true r3
             | .short => [.short]
             | .crash s => [.crash s]
           else if tag = TAG_BLOCKS then
-            if !haveFn then parseRecs le version fuel haveFn r2
+            if !haveFn then parseRecs le version blen fuel total haveFn r2
             else if version < 80 then
               match skipWords len r2 with
-              | some r3 => .blocks len :: parseRecs le version fuel haveFn r3
+              | some r3 =>
+                if total + len > blen then [.fail .blockCount]
+                else .blocks len :: parseRecs le version blen fuel (total + len) haveFn r3
               | none => [.short]
             else
               match readU32 le r2 with
               | .ok n r3 =>
                 -- more blocks announced than bytes left: "Unexpected number of blocks"
                 if n > r3.length then [.fail .blockCount]
-                else .blocks n :: parseRecs le version fuel haveFn r3
+                else if total + n > blen then [.fail .blockCount]
+                else .blocks n :: parseRecs le version blen fuel (total + n) haveFn r3
               | _ => [.short]
           else if tag = TAG_ARCS then
-            if !haveFn then parseRecs le version fuel haveFn r2
+            if !haveFn then parseRecs le version blen fuel total haveFn r2
             else
               match readU32 le r2 with
               | .ok src r3 =>
                 match parsePairs le ((len - 1) / 2) r3 [] with
-                | (as, some r4) => .arcs src as :: parseRecs le version fuel haveFn r4
+                | (as, some r4) => .arcs src as :: parseRecs le version blen fuel total haveFn r4
                 | (as, none) => [.arcs src as, .short]
               | _ => [.short]
           else if tag = TAG_LINES then
-            if !haveFn then parseRecs le version fuel haveFn r2
+            if !haveFn then parseRecs le version blen fuel total haveFn r2
             else
               match readU32 le r2 with
               | .ok blk r3 =>
                 match parseItems le (r3.length + 1) r3 [] with
-                | (items, some r4, _) => .lines blk items :: parseRecs le version fuel haveFn r4
+                | (items, some r4, _) => .lines blk items :: parseRecs le version blen fuel total haveFn r4
                 | (items, none, none) => [.lines blk items, .short]
                 | (items, none, some s) => [.lines blk items, .crash s]
               | _ => [.short]
-          else parseRecs le version fuel haveFn r2
+          else parseRecs le version blen fuel total haveFn r2
         | _ => [.short]
     | _ => []
 
@@ -209,7 +215,7 @@ def readGcno (bs : List Nat) : Outcome (Nat × Nat × List NRec) :=
       | .ok _ r3 =>
         let afterFlag : PR Unit := if version ≥ 80 then skipN 4 r3 else .ok () r3
         match afterFlag with
-        | .ok _ r4 => ok (version, checksum, parseRecs le version (r4.length + 1) false r4)
+        | .ok _ r4 => ok (version, checksum, parseRecs le version bs.length (r4.length + 1) 0 false r4)
         | .short => err .short
         | .crash s => crash s
       | .short => err .short
